@@ -18,7 +18,9 @@ RULE = ("templates built from text segments (letters, non-ASCII, stray '{', '}',
 
 WS = " \t\n\r"
 RUNS = ["", " ", "  ", "\t", "\n", "\r\n", "\r", " \t", "\n\n", " \n ", "\t\t\n", "\r\r", "   \n"]
-WORDS = ["a", "b", "xyz", "é", "√x", "𝄞", "}", "}}", "%", "%}", "'", '"', "{ x", "x {", "-", "-}", "{-", "|", "a{b}c", "<p>", "0", "nil"]
+# characters that are white space to Unicode (char::is_whitespace) but not to the grammar: they are text and must survive every trim
+UWS = ["\u00a0", "\u2003", "\u3000", "\u0085", "\u2028", "\x0c", "\x0b"]
+WORDS = UWS + ["a\u00a0", "\u2003b", "a", "b", "xyz", "é", "√x", "𝄞", "}", "}}", "%", "%}", "'", '"', "{ x", "x {", "-", "-}", "{-", "|", "a{b}c", "<p>", "0", "nil"]
 
 
 def text_segment(rnd):
@@ -40,7 +42,7 @@ def delim(open_, close, inner, lt, rt, rnd):
 
 
 RAW_BODIES = ["", "plain", "{{ x }}", "{% if a %}", "{{ unterminated", "{% unterminated", "}} %}", " {{- x -}} ", "{%- endif -%}", "a {% raw %} b", "{{ 'x' | upcase }}", "  lead and trail  ", "\n{{ x }}\n", "\t{%\tx\t%}\t", "{", "{{", "{ { } }",
-              "{% comment %}c{% endcomment %}", "é{{√}}𝄞"]
+              "{% comment %}c{% endcomment %}", "é{{√}}𝄞", "a\u00a0", "{{ x }}\u2003 \t\n", "\u00a0", "\x0c \u3000", "x\u0085\n", "\u2028 "]
 COMMENT_BODIES = ["", "plain text", "{{ bad", "{{ 'x' }", "{% assign zz = 1 %}", "{% increment n %}", "{% comment %}inner{% endcomment %}", "{{ 1 | plus: }}", "text {{ 'v' }} text", "{% if true %}{% assign zz = 2 %}{% endif %}",
                   "  \n\t", "{% decrement n %}{% capture zz %}x{% endcapture %}", "}} %} {", "{{ 99999999999999999999 }}", "{% unknown_tag %}", "é√𝄞"]
 
